@@ -202,6 +202,7 @@ class Unit:
             'path_kinds': sorted({p.kind + (':' + p.value.cls if p.kind == 'raise' else '') for p in paths}),
             'dropped_calls': dict(interp.dropped_calls),
             'feasibility_checks': interp.solver_checks,
+            'loop_shape': source.loop_shape(node) if self.node_loader is None else None,
             # state / callables the engine had no model for on some path (over-approximated): explains a coverage guard that fails
             'unknown_used': sorted({str(e.data.get('name')) for p in res.all_paths() for e in p.st.events
                                     if e.kind in ('unknown_state_used', 'opaque_comprehension', 'unknown_closure_variable')})[:20],
